@@ -670,3 +670,27 @@ func lemmaFrameAboveCapRoundTrips() bool { return specF7RoundTrips() }
 //@ loop 1 invariant [count]  zzCalls("fn:h") == zzIter()
 //@ loop 1 preserves [once]   zzCalls("fn:h") == 1 && zzArg[*DataMessage]("fn:h", 0) == msg
 //@ ensures [all]  zzCalls("fn:h") == 0 || zzCalls("fn:h") == len(old(s.handlers))
+
+// ---- C11: the reaction to entering NotConnected starts exactly one counted reconnect loop unless closing ----
+
+//@ func (*connection).startConnectLoop
+//@ operation
+
+//@ func (*connection).writeFarewellSeparate
+//@ operation
+
+//@ func (*connection).react
+//@ nosafety nil-deref nil-iface
+//@ noframe
+//@ modifies nothing
+//@ requires c != nil
+//@ ensures [other]    next != NotConnectedState ==> zzCalls("hsms.(*connection).startConnectLoop") == 0 && zzCalls("hsms.(*epoch).teardown") == 0 &&
+//@                    zzCalls("hsms.(*connection).writeFarewellSeparate") == 0
+//@ ensures [redial]   next == NotConnectedState && zzRet[*epoch]("atomic.Load:cur") != nil && !zzRet[bool]("atomic.Load:shutdown") ==>
+//@                    zzCalls("hsms.(*connection).startConnectLoop") == 1 && zzArg[bool]("hsms.(*connection).startConnectLoop", 1) &&
+//@                    zzArg[*epoch]("hsms.(*connection).startConnectLoop", 0) == zzRet[*epoch]("atomic.Load:cur")
+//@ ensures [closing]  zzCalls("hsms.(*connection).startConnectLoop") == 1 ==> !zzRet[bool]("atomic.Load:shutdown")
+//@ ensures [teardown] next == NotConnectedState && zzRet[*epoch]("atomic.Load:cur") != nil ==> zzCalls("hsms.(*epoch).teardown") == 1 &&
+//@                    zzRecv[*epoch]("hsms.(*epoch).teardown") == zzRet[*epoch]("atomic.Load:cur")
+//@ ensures [order]    zzCalls("hsms.(*connection).startConnectLoop") == 1 ==> zzSeq("hsms.(*connection).startConnectLoop") < zzSeq("hsms.(*epoch).teardown")
+//@ ensures [farewell] zzCalls("hsms.(*connection).writeFarewellSeparate") == 1 ==> prev == SelectedState && next == NotConnectedState
